@@ -137,6 +137,18 @@ End Exec.
 Definition run_main (P : program) (maxSteps fuel : nat) (main : nat) : ptree state :=
   exec P maxSteps fuel (body (beh P main)) (mkState O 0 []).
 
+(* The same invocables as behaviours of an agent or as compose blocks of modular scenarios
+   (sub-scenarios invoked by do / do choose / do shuffle from the compose block of the top-level
+   scenario): pickEnabledInvocable and the shuffle loop are shared (Invocable._invokeSubBehavior).
+   They differ in when the simulator stops resuming them: Simulation._run steps the compose blocks
+   first and tests the time limit afterwards, so a compose block's code still runs (up to its
+   next `wait`) at currentTime = maxSteps; behaviours are not resumed at that time. *)
+Inductive form := FBehavior | FCompose.
+Definition step_limit (fm : form) (maxSteps : nat) : nat :=
+  match fm with FBehavior => maxSteps | FCompose => S maxSteps end.
+Definition run_program (fm : form) (P : program) (maxSteps fuel : nat) (main : nat) : ptree state :=
+  run_main P (step_limit fm maxSteps) fuel main.
+
 (* ---- the abstract shuffle used by the permutation theorem: the executed order, with
    enabledness an arbitrary function of (stage clock, item) and each item advancing the clock *)
 Section AbstractShuffle.
